@@ -5,6 +5,7 @@ exactly one expected outcome and result; only the report of leaving a session wh
 TLC checks the invariants over the bounded model and exports the state graph; walks over the graph (preferring
 transitions not yet taken) are executed on the real ORM on SQLite; after every commit / end of session the database
 file is dumped through an independent connection and compared."""
+import os
 import random
 import sqlite3
 import sys
@@ -19,10 +20,10 @@ class Boom(Exception):
     pass
 
 
-def cfg(level, view=False):
-    return ('INIT Init\nNEXT Next\nCONSTANTS\n KIds = {1, 2}\n PVals = {1, 2}\n QVals = {1}\n MaxLevel = %d\nCONSTRAINT Bounded\n'
+def cfg(level, view=False, qnull=True):
+    return ('INIT Init\nNEXT Next\nCONSTANTS\n KIds = {1, 2}\n PVals = {1, 2}\n QVals = {1}\n QNull = {%s}\n MaxLevel = %d\nCONSTRAINT Bounded\n'
             'CHECK_DEADLOCK FALSE\n%sINVARIANT TypeOK\nINVARIANT CommittedKeysDistinct\nINVARIANT IndexedKeysDistinct\n'
-            'INVARIANT QueueExact\nACTION_CONSTRAINT StepProps\n' % (level, 'VIEW DesignView\n' if view else ''))
+            'INVARIANT QueueExact\nACTION_CONSTRAINT StepProps\n' % ('0' if qnull else '', level, 'VIEW DesignView\n' if view else ''))
 
 
 def fmap(x):
@@ -130,6 +131,10 @@ def execute(w, st, ev, rng):
     raise MachineryError('unknown action %r' % op)
 
 
+WRITES = ('Create', 'SetPQ', 'Delete')
+FLUSHING = ('Flush', 'Get', 'Find', 'Commit')
+
+
 def norm_ret(ret):
     return set(tuple(x) if isinstance(x, (list, tuple)) else x for x in ret)
 
@@ -148,9 +153,9 @@ def cleanup(st):
             core.local.db_session = None
 
 
-def run(ctx, nbeh, level, seed, check_level=None):
+def run(ctx, nbeh, level, seed, check_level=None, qnull=True):
     res = tlc.model_check('PonyKeys', cfg(check_level or level + 2, view=True), ctx.scratch, workers=8)
-    nodes, edges, inits, _ = tlc.dump_graph('PonyKeys', cfg(level), ctx.scratch, workers=8)
+    nodes, edges, inits, _ = tlc.dump_graph('PonyKeys', cfg(level, qnull=qnull), ctx.scratch, workers=8)
     succ = {}
     for s, d in edges:
         if d not in succ.setdefault(s, []):
@@ -170,14 +175,25 @@ def run(ctx, nbeh, level, seed, check_level=None):
         try:
             if nodes[u]['sess'] == 'open':
                 execute(w, st, {'op': 'Begin', 'k': 0, 'p': 0, 'q': 0}, rng)
-            for _ in range(level + 1):
+            pattern = rng.random() < 0.5
+            ended = False
+            calls = 0          # calls made in the current session
+            for step in range(level + 1):
                 acts = {}
                 for v in succ.get(u, ()):
                     e = nodes[v]['ev']
                     acts.setdefault((e['op'], e['k'], e['p'], e['q']), []).append(v)
                 if not acts:
+                    ended = True
                     break
                 keys = sorted(acts)
+                if pattern:
+                    # half of the walks alternate a modification with a call that flushes (explicitly or by sending a
+                    # statement): flushed work followed by a doomed change, a failing flush and the exit of the session
+                    # would otherwise be a rare combination among the ~25 calls enabled in every state
+                    wanted = WRITES if calls % 2 == 0 else FLUSHING
+                    sub = [k for k in keys if k[0] in wanted]
+                    keys = sub or keys
                 fresh = [k for k in keys if any((u, v) not in visited for v in acts[k])]
                 key = rng.choice(fresh if fresh and rng.random() < 0.85 else keys)
                 ev0 = nodes[acts[key][0]]['ev']
@@ -192,6 +208,7 @@ def run(ctx, nbeh, level, seed, check_level=None):
                         type(exc).__name__, key[0], key[1:], exc, traceback.format_exc()[-1000:]), trace))
                     break
                 stats['steps'] += 1
+                calls = 0 if key[0] in ('Begin', 'End', 'EndExc', 'Rollback') else calls + 1
                 trace.append({'op': key[0], 'k': key[1], 'p': key[2], 'q': key[3], 'out': out, 'ret': sorted(ret)})
                 if out == 'CacheIndexError':
                     stats['refused_at_once'] += 1
@@ -214,6 +231,29 @@ def run(ctx, nbeh, level, seed, check_level=None):
                         break
                 visited.add((u, v))
                 u = v
+            else:
+                ended = True
+            if ended:
+                # the exported graph ends here; the exit of the session is still determined by the last state when a
+                # flush of the session has failed (the program caught the error): whatever the exit reports, nothing of
+                # the session may reach the database (C14)
+                if nodes[u]['sess'] == 'aborted' and 's' in st:
+                    try:
+                        out, _ = execute(w, st, {'op': 'End', 'k': 0, 'p': 0, 'q': 0}, rng)
+                    except MachineryError:
+                        raise
+                    except Exception as exc:
+                        out = 'crash:' + type(exc).__name__
+                    trace.append({'op': 'End', 'k': 0, 'p': 0, 'q': 0, 'out': out, 'ret': [], 'final': True})
+                    got, problems = w.dump()
+                    stats['commits_compared'] += 1
+                    stats['exits_after_failed_flush'] = stats.get('exits_after_failed_flush', 0) + 1
+                    want = rows_of(nodes[u]['db'])
+                    if out not in ('ok', 'Integrity', 'Internal'):
+                        found.append(('crash', 'End() after a failed flush: pony -> %s' % out, trace))
+                    elif problems or got != want:
+                        found.append(('keys', 'database after leaving a session whose flush had failed (End -> %s) is %r %s, the '
+                                              'specification says it stays %r' % (out, got, '; '.join(problems), want), trace))
         finally:
             cleanup(st)
     w.db.disconnect()
